@@ -1,5 +1,151 @@
-import ZorgVerif.Model.Query
+import ZorgVerif.Lemmas.QueryParse
+import ZorgVerif.Lemmas.Date
+import ZorgVerif.Gen.QueryLexer
+import ZorgVerif.Gen.Consts
+/-!
+# C04 — Query text is compiled into the structure its syntax denotes
+
+`Model/Query.lean`: generated query lexer (`Gen.QueryLexer.rules`, translated from the ATN that runs) +
+recursive descent over tokens + the listener's semantic actions.  `Model/QuerySyn.lean`: syntax trees
+with tokens at the leaves, `toks` (rendering) and `denote` (the structure the syntax spells).
+-/
 namespace ZorgVerif.C04
-open ZorgVerif.Query
-theorem C04_placeholder : prioritiesOf 2 (some 4) = [2, 3, 4] := by decide
+open ZorgVerif ZorgVerif.Query ZorgVerif.Lex
+
+/-- **Main theorem** (token level): for every well-formed syntax tree — any select form, filter tree of
+any shape and depth, both clause orders — compiling its rendering yields exactly its denotation, errors
+(impossible dates) included.  Read right-to-left it is the round trip "render then compile". -/
+theorem C04_denotes (dflt : Defaults) (today : Date) (q : QSyn) (h : q.wf = true) :
+    parseToks dflt today q.toks = q.denote dflt today := parse_denotes dflt today q h
+
+/-- the WHERE clause alone: juxtaposition = one and-filter, `|` = alternatives, parentheses nest -/
+theorem C04_where (dflt : Defaults) (today : Date) (first : List ItemSyn) (alts : List (List ItemSyn))
+    (h : (andWf first && orWf alts) = true) :
+    parseToks dflt today ([tk "'W'" "W", sp] ++ orToks (first :: alts)) =
+      (orDenote today (first :: alts)).map (fun o => ⟨dflt.select, some o, dflt.orderBy, dflt.groupBy⟩) :=
+  parse_where_denotes dflt today first alts h
+
+/-- omitted S / O / G clauses take the defaults (here: whatever `dflt` is; the driver instantiates it
+with the *generated* `Query()` defaults of `Gen/Consts.lean`) -/
+theorem C04_defaults (dflt : Defaults) (today : Date) (first : List ItemSyn) (alts : List (List ItemSyn))
+    (h : (andWf first && orWf alts) = true) (q : Query)
+    (hq : parseToks dflt today ([tk "'W'" "W", sp] ++ orToks (first :: alts)) = .ok q) :
+    q.select = dflt.select ∧ q.orderBy = dflt.orderBy ∧ q.groupBy = dflt.groupBy := by
+  rw [C04_where dflt today first alts h] at hq
+  cases ho : orDenote today (first :: alts) with
+  | error e => rw [ho] at hq; cases hq
+  | ok o => rw [ho] at hq; simp only [Except.map, Except.ok.injEq] at hq; subst hq; exact ⟨rfl, rfl, rfl⟩
+
+/-! ## Character level: all 64 priority spellings through the generated lexer -/
+
+/-- compile a query *text*: generated lexer, then the parser -/
+def compileText (dflt : Defaults) (today : Date) (s : Str) : Except Err Query :=
+  parseToks dflt today (lex Gen.QueryLexer.rules s)
+
+def dflt0 : Defaults := ⟨.field .note, [], []⟩
+def day0 : Date := ⟨2024, 1, 1⟩
+
+/-- the priorities of a query that is a single and-filter with a single atom -/
+def singlePriorities : Except Err Query → Option (List Nat)
+  | .ok ⟨_, some [AndF.mk [.priorities ps] []], _, _⟩ => some ps
+  | _ => none
+
+def spellingOk (n : Nat) (m : Option Nat) : Bool :=
+  let txt : Str := "W P".toList ++ [digitChar n] ++ (match m with | some m => ['-', digitChar m] | none => [])
+  singlePriorities (compileText dflt0 day0 txt) == some (match m with | some m => (List.range (m + 1)).drop n | none => [n])
+
+/-- `Pn` for n = 0..9 and `Pn-m` for every ascending pair with 1 ≤ m ≤ 9: 64 spellings, each lexed by the
+generated DFAs and parsed — a finite table checked by the kernel (re-checked whenever the lexer changes) -/
+theorem C04_priority_spellings :
+    (List.range 10).all (fun n => spellingOk n none &&
+      ((List.range 10).filter (fun m => decide (n ≤ m ∧ 1 ≤ m))).all (fun m => spellingOk n (some m))) = true := by
+  decide +kernel
+
+/-- `Pn-m` denotes every priority from n to m inclusive (as a statement about the expansion) -/
+theorem C04_priority_range (n m : Nat) (k : Nat) : k ∈ prioritiesOf n (some m) ↔ n ≤ k ∧ k ≤ m := by
+  simp only [prioritiesOf, List.mem_drop_iff_getElem]
+  constructor
+  · rintro ⟨i, hi, rfl⟩
+    simp only [List.length_range] at hi
+    simp only [List.getElem_range]; omega
+  · rintro ⟨h1, h2⟩
+    exact ⟨k - n, by simp only [List.length_range]; omega, by simp only [List.getElem_range]; omega⟩
+
+/-! ## Dates: absolute, and offsets from today in days / calendar months (end-of-month clamping) / years -/
+
+/-- a relative spec `Nd` / `Nm` / `Ny` (no sign) means today plus N days / months / years -/
+theorem C04_relative_future (today : Date) (n : Str) (hn : allDigits n = true) (hne : n ≠ []) :
+    fromRelative today (n ++ ['d']) = (let d := Date.addDays (natOfDigits n) today; if d.valid then .ok d else .error (.valueError "date out of range")) ∧
+    fromRelative today (n ++ ['m']) = (let d := Date.addMonths (natOfDigits n) today; if d.valid then .ok d else .error (.valueError "date out of range")) ∧
+    fromRelative today (n ++ ['y']) = (let d := Date.addYears (natOfDigits n) today; if d.valid then .ok d else .error (.valueError "date out of range")) := by
+  have hlow : n.map lowerAscii = n := by
+    induction n with
+    | nil => rfl
+    | cons c cs ih =>
+      simp only [allDigits, List.all_cons, Bool.and_eq_true] at hn
+      have hc : lowerAscii c = c := by
+        have := hn.1
+        simp only [isDigit, Bool.and_eq_true, decide_eq_true_eq] at this
+        unfold lowerAscii
+        have h2 : ¬ ('A' ≤ c ∧ c ≤ 'Z') := by
+          intro ⟨ha, _⟩
+          have : c ≤ '9' := this.2
+          exact absurd (Char.le_trans ha this) (by decide)
+        simp [h2]
+      simp only [List.map_cons, hc]
+      cases cs with
+      | nil => rfl
+      | cons d ds => rw [ih (by simpa [allDigits] using hn.2) (by simp)]
+  have hhead : ∀ u : Char, (n ++ [u]).head? ≠ some '-' := by
+    intro u
+    cases n with
+    | nil => exact absurd rfl hne
+    | cons c cs =>
+      simp only [allDigits, List.all_cons, Bool.and_eq_true, isDigit, decide_eq_true_eq] at hn
+      simp only [List.cons_append, List.head?_cons, ne_eq, Option.some.injEq]
+      intro hc; rw [hc] at hn; exact absurd hn.1.1 (by decide)
+  refine ⟨?_, ?_, ?_⟩ <;>
+  · unfold fromRelative
+    simp only [List.map_append, hlow, List.map_cons, List.map_nil]
+    cases n with
+    | nil => exact absurd rfl hne
+    | cons c cs =>
+      have hc : c ≠ '-' := by
+        have := hhead 'd'; simpa using this
+      simp [lowerAscii, hc, List.reverse_append]
+
+/-- end-of-month clamping and calendar arithmetic of `Nm` (from `Lemmas/Date.lean`) -/
+theorem C04_months_clamp (n : Nat) (t : Date) (h : t.valid = true) :
+    let r := Date.addMonths n t
+    r.y * 12 + (r.m - 1) = t.y * 12 + (t.m - 1) + n ∧ 1 ≤ r.m ∧ r.m ≤ 12 ∧ r.d = min t.d (Date.daysIn r.y r.m) :=
+  Date.addMonths_spec n t h
+
+/-- a range without end is the single start day (what `DateRange(start, None)` is compared against is
+stated in C03: `end or start`) ; an absolute short date denotes itself -/
+theorem C04_short_date (t : Date) (h : t.valid = true) (h1 : 2000 ≤ t.y) (h2 : t.y ≤ 2099) (today : Date) :
+    fromDateSpec today (Date.fmtShort t) = .ok t := by
+  have hl := Date.fmtShort_length t
+  have hp := Date.parseShort_fmtShort t h h1 h2
+  have hd : allDigits (Date.fmtShort t) = true := by
+    rw [Date.fmtShort_eq]
+    simp [allDigits, isDigit, digitChar]
+    refine ⟨?_, ?_, ?_, ?_, ?_, ?_⟩ <;>
+    · generalize hk : (_ % 10) = k
+      have : k < 10 := by rw [← hk]; exact Nat.mod_lt _ (by omega)
+      have : k = 0 ∨ k = 1 ∨ k = 2 ∨ k = 3 ∨ k = 4 ∨ k = 5 ∨ k = 6 ∨ k = 7 ∨ k = 8 ∨ k = 9 := by omega
+      rcases this with h | h | h | h | h | h | h | h | h | h <;> subst h <;> decide
+  simp [fromDateSpec, isShortDateSpec, hl, hd, hp]
+
+/-- value types are inferred from the value -/
+theorem C04_value_type (v : Str) :
+    (valueType v = .date ↔ isDateSpec v = true) ∧
+    (valueType v = .integer ↔ isDateSpec v = false ∧ allDigits v = true) ∧
+    (valueType v = .string ↔ isDateSpec v = false ∧ allDigits v = false) := by
+  unfold valueType
+  cases h1 : isDateSpec v <;> cases h2 : allDigits v <;> simp
+
+/-! ## Non-vacuity: a concrete query text through lexer + parser -/
+example : (compileText dflt0 day0 "S count(note) W (o | x P1-3) #foo !@bar | - G type # O create".toList).toOption.isSome = true := by
+  decide +kernel
+
 end ZorgVerif.C04
